@@ -432,6 +432,38 @@ Proof.
 Qed.
 
 
+(* closure churn with the collector: the budget invariant holds at every step; what a collection subtracts (garbage)
+   and what the last iteration left never exceed the heap *)
+Lemma alloc_seq_mono l : forall m, heap m <= heap (snd (alloc_seq m l)) /\ manual (snd (alloc_seq m l)) = manual m.
+Proof.
+  induction l as [|[a ch] r IH]; intros m; cbn [alloc_seq]; [split; cbn; lia|].
+  destruct (ensure m a); [|split; cbn; lia].
+  destruct ch.
+  - destruct (IH (add_heap m a)) as [A B]. cbn [add_heap heap manual] in *. split; [lia | exact B].
+  - apply IH.
+Qed.
+Definition chst_ok (c : chst) : Prop := Inv (h_mem c) /\ h_garbage c + h_last c <= heap (h_mem c).
+Lemma churn_step_ok allocs st : chst_ok (snd st) -> chst_ok (snd (churn_step allocs st)).
+Proof.
+  destruct st as [r c]. cbn [snd]. intros [HI Hg]. unfold churn_step.
+  destruct r; try (split; assumption).
+  set (m1g := if h_next c <=? heap (h_mem c)
+              then (mkMem (heap (h_mem c) - h_garbage c) (manual (h_mem c)) (maxb (h_mem c)), 0, N.max (GC_GROWTH_FACTOR * (heap (h_mem c) - h_garbage c)) INITIAL_GC_THRESHOLD)
+              else (h_mem c, h_garbage c, h_next c)).
+  assert (K : let '(m1, g1, _) := m1g in Inv m1 /\ g1 + h_last c <= heap m1).
+  { unfold m1g. destruct (h_next c <=? heap (h_mem c)); unfold Inv in *; cbn [heap manual maxb]; split; lia. }
+  destruct m1g as [[m1 g1] nx1]. destruct K as [HI1 Hg1].
+  pose proof (alloc_seq_inv allocs m1 HI1) as [A _]. pose proof (alloc_seq_mono allocs m1) as [B _].
+  destruct (alloc_seq m1 allocs) as [r2 m2]. cbn [snd] in A, B.
+  destruct r2; cbn [snd]; unfold chst_ok; cbn [h_mem h_garbage h_last]; (split; [exact A | lia]).
+Qed.
+Lemma churn_run_ok n allocs m : Inv m -> chst_ok (snd (churn_run n allocs m)).
+Proof.
+  intro HI. unfold churn_run. induction n using N.peano_ind.
+  - cbn. split; [exact HI | cbn; lia].
+  - rewrite N.iter_succ. apply churn_step_ok. exact IHn.
+Qed.
+
 (* ---- exact answers, and no panic / abort *)
 Lemma array_exact cap e m n : maxb m < U64 -> Inv m -> maxb m <= cap ->
   let '(r, m', t) := op_array cap e m n in
